@@ -12,12 +12,25 @@ application dependencies, manifest keys incl. nested ones).  Every (context, str
 inside Coq (coq/Ref/Model.v: observe) and compared slot by slot with what the implementation returned; the
 property predicates (round trip, idempotent expansion, same target, classification) are evaluated on the
 implementation's outputs with an oracle for "first path segment / folders" that is computed by this file, not by
-the code under test."""
+the code under test.
+
+Folders taken from a DIRECTORY LISTING (c09_listing.py): Manifest.fromDirectory is run on real temporary directories that
+hold real sub-directories, files, fifos, symbolic links to each of them (absolute, relative, to a sibling, chained, to
+'.' and '..'), dangling links and link loops, hidden entries and entries named like known components / reserved folders,
+under every include_dirs / include_files setting and for a path that is a directory, a link to one, a file, missing or
+dangling.  The kind of every entry is read back with lstat()/stat(); the implied manifest and top_level_folders are compared
+with that oracle and with Ref.Model.from_directory / dir_folders, every reference function is observed on references into
+each kind of entry with the folder list the implementation derived (Ref.Model.check_listing), and about 4 of 10 random
+listings are also loaded as a package through ExperimentConfigurationFactory.configurationForExperiment."""
 import itertools
 import json
+import os
 import re
+import shutil
+import tempfile
 
 from common import clist, cstr, cnat, cjv, cpair, cZ
+import c09_listing as L
 
 PROP = 'C09'
 COQ_DIR = 'Ref'
@@ -31,6 +44,9 @@ ASSUMPTIONS = [
     'by wf_string (proved equivalent, and proved to be exactly the strings with print(parse s) = s); the run compares wf_string '
     'with the implementation (print(parse r) == r) and with a recogniser written with re on every enumerated, random and '
     'malformed string',
+    'directory listings: an entry is one of 7 kinds (directory, regular file, other, symbolic link resolving to each of them, '
+    'link that does not resolve); os.path.isdir / isfile follow links (Ref.Model.kind_isdir / kind_isfile); the kinds are read '
+    'back from the real file system with lstat()/stat() by harness/c09_listing.py; entry names hold no "/"',
     'nf_guard (the accepted strings on which parse(print(parse s)) = parse s is proved) is compared with an re-based oracle of '
     'this file and the fixed-point claim is evaluated on the implementation for every string',
 ]
@@ -270,9 +286,13 @@ class Impl(object):
         self.tlf = [F.Manifest({k: 'src:copy' for k in cx['keys']}).top_level_folders for cx in CONTEXTS]
 
     def observe(self, ci, r):
+        return self.observe_cx(CONTEXTS[ci], self.tlf[ci], r)
+
+    def observe_cx(self, cx, tlf, r):
+        """cx: owner stage / known components / application dependencies; tlf: the top-level folders the implementation
+        derived (from manifest keys, or from a directory listing)"""
         FI, G = self.FI, self.G
-        cx = CONTEXTS[ci]
-        st, known, ad, tlf = cx['stage'], cx['known'], cx['appdeps'], self.tlf[ci]
+        st, known, ad = cx['stage'], cx['known'], cx['appdeps']
         o = []
         pd = _call(FI.ParseDataReference, r)
         o.append(list(pd) if isinstance(pd, tuple) else pd)
@@ -307,11 +327,13 @@ class Impl(object):
         return o
 
     def observe2(self, ci, r, o):
+        return self.observe2_cx(CONTEXTS[ci], self.tlf[ci], r, o)
+
+    def observe2_cx(self, cx, tlf, r, o):
         """[print(parse r) == r, guard oracle, parse(print(parse r)) == parse r without / with the context]"""
         FI = self.FI
-        cx = CONTEXTS[ci]
         out = [isinstance(o[2], list) and o[3] == r, py_nf_guard(r)]
-        for args in ((None,), (cx['stage'], cx['appdeps'], self.tlf[ci])):
+        for args in ((None,), (cx['stage'], cx['appdeps'], tlf)):
             p = _call(FI.ParseDataReferenceFull, r, *args)
             if not isinstance(p, tuple):
                 out.append(p)
@@ -322,18 +344,20 @@ class Impl(object):
         return out
 
 
-def _predicates(ctx, impl, ci, r, o, o2):
-    """the property as stated, evaluated on the implementation's outputs"""
-    cx = CONTEXTS[ci]
+def _predicates(ctx, impl, ci, r, o, o2, cx=None, tlf=None, case=None):
+    """the property as stated, evaluated on the implementation's outputs.  cx / tlf / case: for the listing cases
+    (cx['keys'] holds the folders the ORACLE of the harness expects, tlf the folders the implementation derived)"""
+    cx = CONTEXTS[ci] if cx is None else cx
+    tlf = impl.tlf[ci] if tlf is None else tlf
+    case = {'ctx': ci, 'ref': r} if case is None else case
     if r.count(':') != 1:
         if o[0] != ERR:
-            ctx.fail({'ctx': ci, 'ref': r, 'got': o[0]}, 'a string without exactly one colon was accepted as a reference', [])
+            ctx.fail(dict(case, got=o[0]), 'a string without exactly one colon was accepted as a reference', [])
         return
     if any(isinstance(x, str) and x.startswith('EXC') for x in o):
-        ctx.fail({'ctx': ci, 'ref': r, 'obs': o}, 'a parsing/printing function raised an unexpected exception class', [])
+        ctx.fail(dict(case, obs=o), 'a parsing/printing function raised an unexpected exception class', [])
         return
     cls = finding_classes(r)
-    case = {'ctx': ci, 'ref': r}
     st = cx['stage']
     # ---- round trip: print (parse r) == r, for the context-free and the contextual parser
     if o[3] != r:
@@ -384,8 +408,8 @@ def _predicates(ctx, impl, ci, r, o, o2):
     # ---- same target: relative and absolute spelling
     if isinstance(full, list) and full[0] is not None and strict_stage is None and o[1][5] is False:
         absolute = 'stage%d.%s' % (st, r)
-        p_abs = _call(impl.FI.ParseDataReferenceFull, absolute, None, cx['appdeps'], impl.tlf[ci])
-        p_abs2 = _call(impl.FI.ParseDataReferenceFull, absolute, 99, cx['appdeps'], impl.tlf[ci])
+        p_abs = _call(impl.FI.ParseDataReferenceFull, absolute, None, cx['appdeps'], tlf)
+        p_abs2 = _call(impl.FI.ParseDataReferenceFull, absolute, 99, cx['appdeps'], tlf)
         d_rel = o[12]
         ok = (isinstance(p_abs, tuple) and list(p_abs) == full and list(p_abs2) == full and o[6] in (r, absolute))
         if ok and isinstance(d_rel, list) and not (full[2] or '').startswith('/'):
@@ -505,17 +529,186 @@ def _end_to_end(ctx, impl):
                      if accept else 'validate() verdict: a reference to an unknown producer is accepted', [])
 
 
+# ---------------------------------------------------------------- folders taken from a directory listing
+REF_TEMPLATES = ['%s/f.txt:ref', '%s:copy', '%s/sub/out.d/x.dat:link', '%s/large/net.pt:copyout', 'stage0.%s/f:ref',
+                 '%s/:ref', '%s/%%(v)s/x:loopref', 'stage1.%s:output']
+LOADER_COMPONENTS = ['A', 'gen_2']
+
+
+def listing_cases(tier, rng):
+    """-> list of dicts {listing, root, opts, ctx, load}: fixed corpus, the systematic family (every kind and variant in
+    one directory x the four include_dirs/include_files settings x every kind of path), then random listings"""
+    nctx = len(CONTEXTS)
+    cases = []
+    for k, l in enumerate(L.CORPUS_LISTINGS):
+        cases.append({'listing': [list(e) for e in l], 'root': 'dir', 'opts': {}, 'ctx': k % nctx,
+                      'load': any(e[0] == 'conf' and e[1] == 'dir' for e in l)})
+    syst = [list(e) for e in L.systematic_listing()]
+    for k, (incd, incf) in enumerate(itertools.product([True, False], repeat=2)):
+        cases.append({'listing': syst, 'root': 'dir', 'opts': {'include_dirs': incd, 'include_files': incf}, 'ctx': k % nctx,
+                      'load': False})
+    for k, root in enumerate(L.ROOTS[1:]):
+        cases.append({'listing': syst[:8] + syst[-6:], 'root': root, 'opts': {}, 'ctx': (k + 1) % nctx, 'load': False})
+    for _ in range(36 if tier == 'quick' else 500):
+        load = rng.random() < 0.4
+        l = L.gen_listing(rng, L.SAFE_E2E if load else None, force_conf=load)
+        opts = {}
+        if not load and rng.random() < 0.4:
+            opts = {'include_dirs': rng.random() < 0.7, 'include_files': rng.random() < 0.5,
+                    'resolve_paths': rng.random() < 0.5, 'method': rng.choice(['copy', 'link']), 'validate': rng.random() < 0.5}
+        root = 'dir' if (load or rng.random() < 0.65) else rng.choice(L.ROOTS)
+        cases.append({'listing': [list(e) for e in l], 'root': root, 'opts': opts, 'ctx': rng.randrange(nctx), 'load': load,
+                      'explicit_manifest': load and rng.random() < 0.3})
+    return cases
+
+
+def _listing_refs(lc, cx, rng):
+    """reference strings into every listed entry, into one known component and into a name that is not listed"""
+    names = [e[0] for e in lc['listing']]
+    extra = ['nothere'] + sorted(cx['known'].get(cx['stage'], []))[:1]
+    refs = []
+    for n in names + [x for x in extra if x not in names]:
+        ts = REF_TEMPLATES if rng is None else rng.sample(REF_TEMPLATES[:5], 2) + rng.sample(REF_TEMPLATES[5:], 1)
+        for t in ts:
+            r = t % n
+            if r not in refs and not finding_classes(r):
+                refs.append(r)
+    return refs
+
+
+def _load_package(ctx, impl, lc, pkg, base):
+    """the front door: ExperimentConfigurationFactory.configurationForExperiment on the real package directory (the
+    implied manifest of the listing, sometimes merged with an explicit manifest holding a nested key)"""
+    import yaml
+    import experiment.model.conf
+    kinds = {e[0]: e[1] for e in lc['listing']}
+    dirlike = sorted(n for n, k in kinds.items() if k in L.DIRLIKE)
+    manifest = None
+    tops = set(dirlike)
+    refs, want = [], []
+    if lc.get('explicit_manifest') and 'extra' not in kinds:
+        manifest = {'extra/deep': os.path.join(base, 'outside') + ':copy'}
+        tops.add('extra')
+        refs.append('extra/deep/f.txt:ref')
+        want.append('extra/deep/f.txt:ref')
+    for n in sorted(kinds):
+        if n == 'conf' or n not in L.SAFE_E2E:
+            continue
+        if n in dirlike and n not in LOADER_COMPONENTS:
+            refs.append('%s/f.txt:ref' % n)
+            want.append('%s/f.txt:ref' % n)
+    for c in LOADER_COMPONENTS:
+        if c not in dirlike:      # also when the package holds a FILE or a dangling link of that name
+            refs.append('%s/out.d/x:ref' % c)
+            want.append('stage0.%s/out.d/x:ref' % c)
+    doc = {'components': [{'name': c, 'command': {'executable': 'echo', 'arguments': 'hello'}} for c in LOADER_COMPONENTS] +
+           [{'name': 'consumer', 'command': {'executable': 'cat', 'arguments': ' '.join(refs)}, 'references': refs}]}
+    with open(os.path.join(pkg, 'conf', 'flowir_package.yaml'), 'w') as f:
+        yaml.safe_dump(doc, f)
+    case = {'listing': lc['listing'], 'root': lc['root'], 'opts': lc['opts'], 'ctx': lc['ctx'], 'load': True,
+            'explicit_manifest': bool(manifest)}
+    ctx.case(['load', lc['listing'], sorted(manifest or {})], True)
+    ctx.count('listing_packages_loaded')
+    try:
+        conf = experiment.model.conf.ExperimentConfigurationFactory.configurationForExperiment(pkg, manifest=manifest)
+        got_tops = sorted(conf.top_level_folders)
+        got_refs = conf.configurationForNode('stage0.consumer')['references']
+    except Exception as e:
+        ctx.fail(dict(case, references=refs, error='%s: %s' % (type(e).__name__, str(e)[:300].replace(base, '<tmp>'))),
+                 'loading a package whose references point into its top-level folders (directories and links to '
+                 'directories) or to its components failed', [])
+        return
+    if got_tops != sorted(tops):
+        ctx.fail(dict(case, top_level_folders=got_tops, expected=sorted(tops)),
+                 'the top-level folders of the loaded package are not the directories (symbolic links followed) of its listing', [])
+    if list(got_refs) != want:
+        ctx.fail(dict(case, references=list(got_refs), expected=want),
+                 'the loaded package does not keep folder references as written / expand component references', [])
+
+
+def _run_listing_case(ctx, impl, lc, rng):
+    """-> Coq term of the case (or None)"""
+    F = impl.F
+    base_cx = CONTEXTS[lc['ctx']]
+    opts = dict(lc['opts'])
+    incd, incf = opts.get('include_dirs', True), opts.get('include_files', False)
+    listing = sorted(tuple(e) for e in lc['listing'])
+    root_ok = lc['root'] in ('dir', 'slash', 'link')
+    want = sorted(n for n, k, _v in listing if (incd and k in L.DIRLIKE) or (incf and k in L.FILELIKE)) if root_ok else []
+    cx = {'stage': base_cx['stage'], 'known': base_cx['known'], 'appdeps': base_cx['appdeps'], 'keys': want}
+    desc = {'listing': lc['listing'], 'root': lc['root'], 'opts': lc['opts'], 'ctx': lc['ctx']}
+    base = tempfile.mkdtemp(prefix='c09l_')
+    try:
+        pkg = L.materialise(base, listing)
+        path = L.root_path(base, pkg, lc['root'])
+        m = _call(lambda: F.Manifest.fromDirectory(path, **opts))
+        ctx.case(['listing', lc['listing'], lc['root'], sorted(opts.items())], any(k.startswith('link') or k == 'dangling' for _n, k, _v in listing))
+        ctx.count('listing_cases')
+        ctx.count('listing_root_' + lc['root'])
+        for _n, k, _v in listing:
+            ctx.count('listing_entry_' + k)
+        if isinstance(m, (int, str)):
+            ctx.fail(dict(desc, raised=m), 'Manifest.fromDirectory raised on a directory that can be listed', [])
+            return None
+        keys, tl = sorted(m.manifestData), sorted(m.top_level_folders)
+        if keys != want or tl != want:
+            ctx.fail(dict(desc, manifest_keys=keys, top_level_folders=tl, expected=want),
+                     'the folders taken from a directory listing are not the entries that are directories (symbolic links '
+                     'followed; files only with include_files)', [])
+        tlf = list(m.top_level_folders)
+        rterms = []
+        for r in _listing_refs(lc, cx, rng):
+            o = impl.observe_cx(cx, tlf, r)
+            o2 = impl.observe2_cx(cx, tlf, r, o)
+            _predicates(ctx, impl, lc['ctx'], r, o, o2, cx=cx, tlf=tlf, case=dict(desc, ref=r))
+            ctx.case(['listing-ref', lc['listing'], lc['root'], sorted(opts.items()), lc['ctx'], r], isinstance(o[0], list))
+            ctx.count('listing_refs')
+            if isinstance(o[4], list):
+                ctx.count('listing_ref_component' if o[4][0] is not None else 'listing_ref_direct')
+            rterms.append('(%s, %s, %s)' % (cstr(r), cjv(o), cjv(o2)))
+        if lc.get('load') and root_ok:
+            _load_package(ctx, impl, lc, pkg, base)
+    finally:
+        shutil.rmtree(base, ignore_errors=True)
+    known = clist(sorted(cx['known'].items()), lambda kv: '(%s, %s)' % ('%d%%N' % kv[0], clist(kv[1], cstr)))
+    return '(%s, %s, %s, %s, %s, %s, %d%%N, %s, %s, %s)' % (
+        L.ROOT_COQ[lc['root']], 'true' if incd else 'false', 'true' if incf else 'false',
+        clist(listing, lambda e: '(%s, %s)' % (cstr(e[0]), L.KIND_COQ[e[1]])), clist(keys, cstr), clist(tl, cstr),
+        cx['stage'], known, clist(cx['appdeps'], cstr), '[' + '; '.join(rterms) + ']')
+
+
+def _listings(ctx, impl, cases=None, rng='ctx'):
+    """Manifest.fromDirectory on real temporary directories vs the harness oracle (lstat/stat) and vs Ref.Model.check_listing"""
+    rng = ctx.rng if rng == 'ctx' else rng
+    cases = listing_cases(ctx.tier, ctx.rng) if cases is None else cases
+    terms, idx = [], []
+    for k, lc in enumerate(cases):
+        t = _run_listing_case(ctx, impl, lc, rng)
+        if t is not None:
+            terms.append(t)
+            idx.append(k)
+    bad = ctx.model_mismatches(HEADER(), terms, 'check_listing', chunk=12, name='listings')
+    for i in bad:
+        lc = cases[idx[i]]
+        ctx.disagree({'listing': lc['listing'], 'root': lc['root'], 'opts': lc['opts'], 'ctx': lc['ctx']}, terms[i][:1500], '',
+                     'C09 Manifest.fromDirectory / reference functions under the listed folders vs Ref.Model.check_listing')
+
+
 def run(ctx):
     ctx.rule = ('reference strings = stage prefix (none, stage0., stage1., stage12., stage1x., stage01., stage.) x 25 producer '
                 'names (dots, dashes, digits, loop prefix, special folders, manifest/app-dep folder names, variables, index, '
                 'absolute paths) x 7 file paths (0-3 segments, glob, variable, empty) x methods (8 real, 3 malformed, none), '
                 'plus absolute paths with empty / doubled / trailing separators, a malformed stream (1-3 random edits of '
                 'grammar strings) and random token soups, under 6 contexts (owner stage, known components, application dependencies, '
-                'manifest keys incl. nested); non-trivial = accepted by the parser and holding at least one of / . % # '
+                'manifest keys incl. nested); folder lists taken from real directory listings (Manifest.fromDirectory on temporary '
+                'directories: 7 entry kinds x 21 ways of making them, 4 include_dirs/include_files settings, 6 kinds of path; fixed '
+                'corpus + systematic family + random listings, 3 of 8 reference templates into every entry, package load through '
+                'configurationForExperiment for about 4 of 10 random listings); non-trivial = accepted by the parser and holding at least one of / . % # '
                 'before the colon; distinct by (context, string)')
     pairs = enumerate_refs(ctx.tier, ctx.rng)
     impl = _explore(ctx, pairs)
     _folders(ctx, impl)
+    _listings(ctx, impl)
     _end_to_end(ctx, impl)
     ctx.exhaustive = True
     ctx.extra['exhaustive_scope'] = 'the token grammar above is enumerated completely (quick: 2 methods in the full cross product)'
@@ -524,7 +717,13 @@ def run(ctx):
 def replay(ctx, path):
     d = json.load(open(path))
     c = d.get('case') or d.get('first', {}).get('case') or {}
-    if 'ref' in c:
+    if 'listing' in c:
+        # rebuild the directory of the case and run every reference template (and the package load) on it
+        _listings(ctx, Impl(), cases=[{'listing': c['listing'], 'root': c.get('root', 'dir'), 'opts': c.get('opts', {}),
+                                       'ctx': c.get('ctx', 0), 'explicit_manifest': bool(c.get('explicit_manifest')),
+                                       'load': bool(c.get('load')) or any(e[0] == 'conf' and e[1] == 'dir' for e in c['listing'])}],
+                  rng=None)
+    elif 'ref' in c:
         _explore(ctx, [(c['ctx'], c['ref'])])
     elif 'manifest_keys' in c or 'folders_case' in c or 'manifest' in c or 'appdeps' in c:
         impl = Impl()
